@@ -144,6 +144,7 @@ class ParserAlignedPacket(object):
         """
         fullbufferlen = len(buf)
         bufferparsed = 0
+        self.parserblocks = []
         while bufferparsed < fullbufferlen:
             block = ParserAlignedBlock()
             # unpack and add the amount unpacked to the running total
